@@ -185,6 +185,9 @@ pub struct Plan {
     pub raw_stranger: bool,
     /// how far the clock moves on after every reading by the worker (zero: a clock that stands still within a batch)
     pub read_cost: Duration,
+    /// the oldest of the set's pre-existing files cannot be deleted (immutable, read-only mount, held open elsewhere on
+    /// some systems): retention has to work around it
+    pub stuck_oldest: bool,
 }
 
 fn payload(id: u32, len: usize) -> Vec<u8> {
@@ -438,6 +441,7 @@ pub fn gen_plan(ch: &mut Choices, mode: &str, thorough: bool) -> Plan {
         } else {
             Duration::ZERO
         },
+        stuck_oldest: c11 && ch.chance(1, 8),
     }
 }
 
@@ -591,6 +595,17 @@ pub fn exec_plan(
     let file_path = |name: &str| if cfg.dir.is_empty() { name.to_string() } else { format!("{}/{}", cfg.dir, name) };
     for (name, body, foreign) in &plan.existing {
         fs.seed_file(&file_path(name), body, *foreign);
+    }
+    // the oldest (smallest-named) of the set's own pre-existing files may be one that cannot be deleted
+    let stuck: Option<String> = if plan.stuck_oldest && faults.is_empty() {
+        let mut own: Vec<&String> = plan.existing.iter().filter(|e| !e.2 && parse_own(&e.0, &cfg.prefix, &cfg.ext, cfg.roll).is_some()).map(|e| &e.0).collect();
+        own.sort();
+        own.first().map(|n| (*n).clone())
+    } else {
+        None
+    };
+    if let Some(name) = &stuck {
+        fs.lock().undeletable.insert(crate::simfs::norm(std::path::Path::new(&file_path(name))));
     }
     if plan.raw_stranger {
         let mut raw = cfg.prefix.as_bytes().to_vec();
@@ -980,7 +995,13 @@ pub fn exec_plan(
                     // retention runs when a file is created; a batch that is appended to an existing file
                     // must merely not grow the set (a directory that already held more than max_files,
                     // e.g. after max_files was lowered, is pruned at the next roll)
-                    let limit = if created.is_empty() { own_before.len().max(cfg.max_files) } else { cfg.max_files };
+                    // (a member that cannot be deleted stays: what is asked for is that retention works around it -
+                    // the set then holds at most the maximum, or that file plus the new one if the maximum is one)
+                    let stuck_here = stuck.as_ref().map(|s| own_after.contains(s)).unwrap_or(false);
+                    if stuck_here && log.iter().any(|o| o.kind == OpKind::Remove && !o.ok) {
+                        ex.probes.insert("retention_met_a_file_it_cannot_delete");
+                    }
+                    let limit = if created.is_empty() { own_before.len().max(cfg.max_files) } else { cfg.max_files.max(if stuck_here { 2 } else { 0 }) };
                     if own_after.len() > limit {
                         violate!(
                             "C11",
@@ -999,7 +1020,7 @@ pub fn exec_plan(
                             .map(|o| name_of(&o.path))
                             .collect();
                         for r in &removed {
-                            if let Some(s) = own_before.iter().find(|s| !removed.contains(s) && *s < r) {
+                            if let Some(s) = own_before.iter().find(|s| !removed.contains(s) && *s < r && Some(*s) != stuck.as_ref()) {
                                 violate!("C11", "retention_order", "deleted {r} while the older {s} was kept");
                             }
                         }
